@@ -501,6 +501,22 @@ def run(ck):
                     pass
 
     libs += [("convert / in_current_units (refused argument)", lib_convert_refused)]
+
+    def lib_cf_kinds():
+        # copy / sum / in-place sum of bath functions of the other analytic kinds (the left operand decides which constructor runs)
+        for prm in (dict(ftype="UnderdampedBrownian", reorg=0.01, freq=0.05, gamma=1.0 / 500.0, T=300.0),
+                    dict(ftype="B777", reorg=0.01, T=300.0)):
+            c_ = CorrelationFunction(ta, dict(prm))
+            c_.copy()
+            c_ + CorrelationFunction(ta, dict(ftype="OverdampedBrownian", reorg=0.01, cortime=50.0, T=300.0))
+            c_ += c_
+
+    def lib_cutoff():
+        from quantarhei import Hamiltonian
+        hc = Hamiltonian(data=[[0.0, 0.0, 0.0], [0.0, 1.0, 0.01], [0.0, 0.01, 1.1]])
+        hc.remove_cutoff_coupling(0.005)
+
+    libs += [("CorrelationFunction copy/+/+= (underdamped, B777)", lib_cf_kinds), ("Hamiltonian.remove_cutoff_coupling", lib_cutoff)]
     libs += [("Aggregate.build", lib_build), ("Aggregate.build(mult=2)", lib_build_mult2), ("get_RelaxationTensor", lib_relax),
             ("get_RelaxationTensor(time_dependent)", lib_relax_td), ("get_Hamiltonian.data", lib_ham), ("CorrelationFunction+", lib_cf),
             ("TimeAxis.get_FrequencyAxis", lib_faxis), ("convert", lib_convert), ("AbsSpectrumCalculator.calculate", lib_abs),
@@ -528,7 +544,7 @@ def run(ck):
             elif x < 0.85:
                 nodes.append(("call", rng.choice(cheap_libs)))
             elif x < 0.93:
-                nodes.append(("raw", rng.choice(eunits)))
+                nodes.append(("raw", rng.choice(eunits)) if (depth == 0 or rng.random() < 0.6) else ("rawleft", rng.choice(eunits)))
             else:
                 nodes.append(("rawbad",))
         return nodes
@@ -583,6 +599,9 @@ def run(ck):
             elif nd[0] == "raw":
                 m.set_current_units("energy", nd[1]); emit("rawset %s" % nd[1], "ok " + state())
                 m.unset_current_units("energy"); emit("rawunset", "ok " + state())
+            elif nd[0] == "rawleft":
+                # units switched by hand inside a context and not switched back (what a refused build() leaves behind): the context restores on exit
+                m.set_current_units("energy", nd[1]); emit("rawset %s" % nd[1], "ok " + state())
             elif nd[0] == "rawbad":
                 try:
                     m.set_current_units("energy", "furlong"); out = "ok "
@@ -590,6 +609,26 @@ def run(ck):
                     out = "refused "
                 emit("rawset furlong", out + state())
 
+    # a cut-off supplied in the current units acts on the couplings as read in the current units: the same couplings go whatever the context
+    try:
+        from quantarhei import Hamiltonian
+        for un_ in (None, "1/cm", "eV", "THz", "nm" if False else "meV"):
+            J1, J2 = 0.004, 0.009                                   # internal units; the cut-off lies between them
+            hco = Hamiltonian(data=[[0.0, 0.0, 0.0, 0.0], [0.0, 1.0, J1, J2], [0.0, J1, 1.1, -J2], [0.0, J2, -J2, 1.2]])
+            inp_ = {"accessor": "Hamiltonian.remove_cutoff_coupling", "units": un_, "couplings_int": [J1, J2, -J2], "cutoff_int": 0.006}
+            m.current_units["energy"] = "1/fs"; m._in_eu_count = 0; m._in_energy_units_context = False
+            if un_:
+                with energy_units(un_):
+                    hco.remove_cutoff_coupling(qr.convert(0.006, "int", to=un_))
+            else:
+                hco.remove_cutoff_coupling(0.006)
+            got_ = [float(hco._data[1, 2]), float(hco._data[1, 3]), float(hco._data[2, 3])]
+            ck.case(("cutoff", un_), nontrivial=bool(un_), accessor="remove_cutoff_coupling")
+            if got_ != [0.0, J2, -J2]:
+                ck.fail("accessor:remove_cutoff_coupling", "couplings removed by a cut-off given in the current units are not those below the cut-off",
+                        inp_, got_, [0.0, J2, -J2])
+    except Exception as e:
+        ck.fail("raises:remove_cutoff_coupling", "remove_cutoff_coupling under a units context raised %r" % (e,), {})
     # every library call once per run whatever the seed: inside a context of another unit and outside any context
     for li, (name, f) in enumerate(libs):
         for ctxu in ("1/cm", None, "eV"):
@@ -624,6 +663,15 @@ def run(ck):
         m._in_energy_units_context = False
         emit("reset %s" % start, state())
         prog = gen_nodes(0)
+        if h < 3:
+            # fixed programs: a context asking for the units that are active already, units switched by hand inside it
+            u_, v_ = (("1/cm", "eV"), ("eV", "THz"), ("1/fs", "1/cm"))[h]
+            inner = ["with", u_, [("rawleft", v_)], False, False, None]
+            prog = [["with", u_, [inner if h != 1 else ["with", u_, [inner], False, True, None], ("call", cheap_libs[0])], False, False, None]]
+            start = ("1/fs", "1/cm", "1/fs")[h]
+            m.current_units["energy"] = start
+            lines.pop(); impl.pop(); tol.pop()
+            emit("reset %s" % start, state())
         stats.update(maxdepth=0, raises=0, calls=0, precreated=0)
 
         def precreate(nodes):
